@@ -170,6 +170,8 @@ func DrawSingle(r *rng.R, ts []Template, tplIdx int, bindIdx int) *Entry {
 	b1 := r.Range(1, 3)
 	if r.Chance(1, 8) {
 		b1 = r.Range(4, 6)
+	} else if r.Chance(1, 12) {
+		b1 = []int{10, 11, 12, 21, 31, 100, 101, 111}[r.Intn(8)] // extents with more than one decimal digit
 	}
 	b2 := r.Range(1, 3)
 	if b2 == b1 {
